@@ -505,9 +505,22 @@ var scenarios = []scenario{
 	}},
 }
 
+// runGuarded runs a scenario script. The scripts index into what earlier
+// replies yielded; if the server answered differently (or panicked) such an
+// access may fail. That is logged, never judged here.
+func runGuarded(s *script, sc scenario) {
+	defer func() {
+		if r := recover(); r != nil && !s.dead {
+			s.e.tr.Emit(common.Ev{"ev": "anomaly", "what": fmt.Sprint("scenario script could not continue: ", r)})
+			s.dead = true
+		}
+	}()
+	sc.run(s)
+}
+
 func runScenario(tr *common.Trace, no int, sc scenario) {
 	s := newScript(tr, no, sc.name, []string{"a", "b"})
-	sc.run(s)
+	runGuarded(s, sc)
 	s.finish()
 }
 
